@@ -42,7 +42,7 @@ def generate(rng: random.Random, tier: str):
     for r in range(1, top + 1):
         for e in range(1, top + 1):
             cases.append({'kind': 'fft', 'shape': [r], 'dim': [0], 'recon': [r], 'enc': [e], 'seed': r * 31 + e})
-    flavours = ['cart_full', 'cart_permuted', 'cart_undersampled', 'cart_dup', 'cart_2d', 'cart_1d', 'cart_per_other', 'partial_grid',
+    flavours = ['cart_jitter', 'cart_full', 'cart_permuted', 'cart_undersampled', 'cart_dup', 'cart_2d', 'cart_1d', 'cart_per_other', 'partial_grid',
                 'radial2d', 'random2d', 'random3d', 'random1d']
     for _ in range(120 if thorough else 36):
         cases.append(gen_fourier(rng, rng.choice(flavours)))
@@ -78,7 +78,7 @@ def gen_fourier(rng, flavour):
             o = 1
             if n == 1:
                 vals = [0]
-            elif flavour == 'cart_permuted' and pos != 3:
+            elif flavour in ('cart_permuted', 'cart_jitter') and pos != 3:
                 rng.shuffle(vals)
             elif flavour == 'cart_undersampled' and pos != 3:
                 vals = sorted(rng.sample(vals, max(1, n - rng.randint(1, 2))))
@@ -94,6 +94,9 @@ def gen_fourier(rng, flavour):
                 vals = vv
             shape = [o, 1, 1, 1]
             shape[pos] = len(vals) // o
+            if flavour == 'cart_jitter' and n > 1:
+                # on the grid only up to the detection tolerance: stored with small errors of either sign
+                vals = [Fraction(v) + rng.choice([-1, 1, 1, -1, 0]) * Fraction(1, rng.choice([2048, 4096, 8192])) for v in vals]
             comps[name] = {'shape': shape, 'vals': [str(v) for v in vals]}
         return _carry({'kind': 'fourier', 'flavour': flavour, 'recon': recon, 'enc': enc, 'other': other, 'coils': coils, **comps,
                        'seed': rng.randrange(1 << 30)})
@@ -295,6 +298,8 @@ def run_fourier(case, drv):
         viol = {'signature': 'fourier:shape', 'what': f'FourierOp {case["flavour"]}: output shape {list(y.shape)} is not the trajectory shape {tshape}'}
     else:
         # for cropping configurations restrict the oracle to the voxels that survive (FFT path crops the image)
+        if case['flavour'] == 'cart_jitter':  # on-grid within the tolerance means: the sample at the grid point
+            kz, ky, kx = kz.round(), ky.round(), kx.round()
         want = nudft_oracle(x, kz, ky, kx, recon, enc, transformed, tshape)
         crop = any(r > e for r, e, t in zip(recon, enc, transformed, strict=True) if t)
         if not crop:
